@@ -19,6 +19,8 @@ type script struct {
 	clients []*clientC
 	csBase  map[uint64]uint32
 	dead    bool // the real code panicked; stop the trace
+	hung    bool // a duplicate of a request in flight never returned
+	helds   []*heldCall
 }
 
 func newScript(tr *common.Trace, no int, name string, names []string) *script {
@@ -112,6 +114,10 @@ func (s *script) doOn(c *clientC, sessNo, slot int, cache bool, ops ...*Op) *nfs
 			c.track(s.e, ops, res)
 		case nfsv4.NFS4ERR_TOO_MANY_OPS:
 			// The slot's sequence ID is not consumed.
+		case nfsv4.NFS4ERR_BADSESSION:
+			// The client learns that the session is gone (destroyed, or
+			// its lease ran out) and will have to register again.
+			c.sess = append(append([]*sessC{}, c.sess[:sessNo]...), c.sess[sessNo+1:]...)
 		}
 	}
 	return res
@@ -301,7 +307,22 @@ var scenarios = []scenario{
 		s.do(a, putfh(s.fh(1)), lockNew(old, "l1", "R", 0, 1))
 		s.do(a, putfh(s.fh(1)), lockNew(oa.sid, "l1", "R", 0, 1))
 		la := a.lock("o1", "l1", s.fh(1))
-		s.do(a, testSids(oa.sid, old, fut, zero, junk, la.sid, anonSid, bypassSid, sid{kind: "reg", other: 777, seq: 1}))
+		// the same checks for a lock state ID
+		s.do(a, putfh(s.fh(1)), lockMore(la.sid, "R", 1, 2)) // seq 2
+		oldL, futL := la.sid, la.sid
+		oldL.seq--
+		futL.seq++
+		s.do(a, putfh(s.fh(1)), locku(oldL, 0, 1))
+		s.do(a, putfh(s.fh(1)), lockMore(futL, "R", 2, 3))
+		s.do(a, putfh(s.fh(1)), read(oldL))
+		s.do(a, putfh(s.fh(2)), locku(la.sid, 0, 1)) // wrong file
+		s.do(a, putfh(s.fh(2)), lockMore(la.sid, "R", 2, 3))
+		s.do(a, putfh(s.fh(2)), read(la.sid))
+		s.do(a, locku(la.sid, 0, 1))                 // no file handle
+		s.do(b, putfh(s.fh(1)), locku(la.sid, 0, 1)) // other client
+		s.do(b, putfh(s.fh(1)), read(la.sid))
+		s.do(a, freeSid(futL))
+		s.do(a, testSids(oa.sid, old, fut, zero, junk, la.sid, oldL, futL, anonSid, bypassSid, sid{kind: "reg", other: 777, seq: 1}))
 		s.do(a, putfh(s.fh(1)), closeOp(la.sid))     // lock id where an open id is needed
 		s.do(a, putfh(s.fh(1)), locku(oa.sid, 0, 1)) // open id where a lock id is needed
 		s.do(a, freeSid(oa.sid))
@@ -398,6 +419,41 @@ var scenarios = []scenario{
 		s.do(b, putfh(s.fh(1)), lockMore(b.lock("o1", "l1", s.fh(1)).sid, "R", 3, 4))
 		s.do(a, putfh(s.fh(1)), lockMore(la.sid, "R", 0, 3))
 		s.do(a, putfh(s.fh(1)), lockMore(la.sid, "W", 0, 1))
+	}},
+	{"lock-very-last-byte", func(s *script) {
+		// Offset 2^64-1 with length all ones is exactly the last byte; a
+		// range "through end of file" covers it too. Two owners must
+		// never both be granted it unless both locks are shared (a
+		// server may refuse such ranges altogether).
+		a := s.client("A", 1)
+		b := s.client("B", 1)
+		s.do(a, putroot(), openName("o1", "a", shRW, "NOCREATE"), getfh())
+		s.do(b, putroot(), openName("o1", "a", shRW, "NOCREATE"), getfh())
+		oa, ob := a.open("o1", s.fh(1)), b.open("o1", s.fh(1))
+		last := func(o *Op, rk string) *Op { o.RK, o.S, o.E = rk, nPos, nPos; return o }
+		s.do(a, putfh(s.fh(1)), lockNew(oa.sid, "l1", "W", 0, nPos)) // [0, end of file]
+		s.do(b, putfh(s.fh(1)), last(lockt("l1", "W", 0, 0), "last"))
+		s.do(b, putfh(s.fh(1)), last(lockNew(ob.sid, "l1", "W", 0, 0), "last"))
+		s.do(b, putfh(s.fh(1)), last(lockNew(ob.sid, "l1", "W", 0, 0), "last1"))
+		s.do(b, putfh(s.fh(1)), last(lockt("l1", "R", 0, 0), "last1"))
+		la := a.lock("o1", "l1", s.fh(1))
+		s.do(a, putfh(s.fh(1)), last(locku(la.sid, 0, 0), "last"))
+		s.do(a, putfh(s.fh(1)), locku(la.sid, 0, nPos))
+		// nobody holds anything: the last byte alone, two owners
+		s.do(a, putfh(s.fh(1)), last(lockMore(la.sid, "W", 0, 0), "last"))
+		s.do(b, putfh(s.fh(1)), last(lockNew(ob.sid, "l1", "W", 0, 0), "last"))
+		s.do(b, putfh(s.fh(1)), last(lockNew(ob.sid, "l2", "R", 0, 0), "last"))
+		s.do(a, putfh(s.fh(1)), last(lockt("l9", "R", 0, 0), "last"))
+		s.do(a, putfh(s.fh(1)), last(locku(la.sid, 0, 0), "last"))
+		// shared locks on the last byte by both
+		s.do(a, putfh(s.fh(1)), last(lockMore(la.sid, "R", 0, 0), "last"))
+		s.do(b, putfh(s.fh(1)), last(lockNew(ob.sid, "l1", "R", 0, 0), "last"))
+		// up to, but not including, the last byte
+		s.do(a, putfh(s.fh(1)), &Op{Name: "LOCK", Sid: la.sid, LT: "W", RK: "exact", S: 1, E: nPos})
+		s.do(b, putfh(s.fh(1)), last(lockNew(ob.sid, "l2", "W", 0, 0), "last"))
+		s.do(b, putfh(s.fh(1)), lockNew(ob.sid, "l2", "W", 0, 1))
+		s.do(a, putfh(s.fh(1)), closeOp(oa.sid))
+		s.do(b, putfh(s.fh(1)), lockNew(ob.sid, "l2", "W", 0, nPos))
 	}},
 	{"downgrade-with-lock-owner", func(s *script) {
 		a := s.client("A", 1)
@@ -496,6 +552,7 @@ var scenarios = []scenario{
 		s.resend(a, 0, 0, 3, true, open...)                                                           // ahead
 		s.resend(a, 0, 0, 0, true, open...)                                                           // behind
 		s.resend(a, 0, 5, 1, true, open...)                                                           // bad slot
+		s.resend(a, 0, 0, 1, true, open...)                                                           // the rejected requests left the cached reply alone
 		up := []*Op{putroot(), openName("o1", "a", shW, "NOCREATE"), getfh()}
 		s.doOn(a, 0, 0, false, up...) // not cached (3 results)
 		s.resend(a, 0, 0, 2, false, up...)
@@ -517,6 +574,33 @@ var scenarios = []scenario{
 		s.resend(a, 0, 0, 4, false, fail...) // the cache entry was dropped
 		s.doOn(a, 0, 0, true, putroot(), &Op{Name: "SEQUENCE"})
 		s.do(a, getfh())
+	}},
+	{"create-session-retransmissions", func(s *script) {
+		// CREATE_SESSION has a replay cache of its own (one reply per
+		// client incarnation).
+		a := s.client("A", 1)
+		s.do(a, putroot(), openName("o1", "a", shRW, "NOCREATE"), getfh())
+		s.newSession(a, a.csNext-1) // retransmission: the same session again, no new one
+		s.newSession(a, a.csNext-1)
+		s.newSession(a, a.csNext+1) // ahead
+		s.newSession(a, a.csNext-2) // behind
+		s.newSession(a, a.csNext-1) // the rejected requests left the cached reply alone
+		s.newSession(a, a.csNext)   // a second session
+		s.newSession(a, a.csNext-1) // its retransmission
+		s.newSession(a, a.csNext-2) // the first reply is no longer cached
+		s.doOn(a, 1, 0, true, putfh(s.fh(1)), read(a.open("o1", s.fh(1)).sid))
+		if len(a.sess) > 1 {
+			s.e.destroySession(a.sess[1].id, true)
+		}
+		s.newSession(a, a.csNext-1) // retransmission after its session was destroyed: the cached reply
+		s.do(a, putfh(s.fh(1)), closeOp(a.open("o1", s.fh(1)).sid))
+		b := newClient("B", 1)
+		s.clients = append(s.clients, b)
+		s.register(b, false)
+		s.newSession(b, b.csNext-1) // "retransmission" of a CREATE_SESSION that never happened
+		s.newSession(b, b.csNext+1)
+		s.newSession(b, b.csNext)
+		s.newSession(b, b.csNext-1)
 	}},
 	{"two-lofs-same-owner-probe", func(s *script) {
 		a := s.client("A", 1)
